@@ -27,6 +27,21 @@ def run(ctx):
         sp['opts']['split'] = {'h': '3h', '30min': '2h'}[sp['grid']['freq']]
         sp['opts']['n_inj'] = 0
     specs += spl
+    # node names contained in each other (hub / hub_s / hub_south), in any order of first appearance
+    import random, copy
+    from props.C09 import rename_assets, asset_names, node_names
+    sub = []
+    for sp in gen.gen_many(ctx.seed, n // 2, dict(CFG, nodes=(2, 3), p_coarse=0.0, p_periodic=0.0), 'c18nm_'):
+        rng = random.Random(str(sp['seed']) + '/names')
+        pool = rng.choice([['hub', 'hub_s', 'hub_south'], ['N', 'N1', 'N11'], ['1', '11', '21']])
+        rng.shuffle(pool)
+        nn = node_names(sp['assets'])
+        if len(nn) > len(pool):
+            continue
+        rename_assets(sp['assets'], {a: a for a in asset_names(sp['assets'])}, dict(zip(nn, pool)))
+        sp['opts']['n_inj'] = 3 if ctx.tier == 'quick' else 8
+        sub.append(sp)
+    specs += sub
     specs = ctx.specs(specs)
     res = C.run_impl('prices', specs)
     exprs, owners = [], []
